@@ -138,6 +138,7 @@ fn exec(live: &mut Live, op: &Value, dict: &Dict) -> Value {
             }
             Err(e) => res_err(e),
         },
+        "remove_stream" => res_unit(live.cf.as_mut().unwrap().remove_stream(path(op))),
         "cf_flush" => res_unit(live.cf.as_mut().unwrap().flush()),
         "fresh_read" => {
             let p = format!("/{}", dict.str_of(&live.hname));
@@ -266,6 +267,7 @@ fn main() {
         None => Dict::empty(),
     };
     let mut out = BufWriter::new(std::fs::File::create(&args[2]).expect("out"));
+    cfb_verif_harness::watchdog::start(script["hist_limit_ms"].as_u64().unwrap_or(60_000));
     for (hi, hist) in script["histories"].as_array().expect("histories").iter().enumerate() {
         if hi < from {
             continue;
@@ -273,6 +275,8 @@ fn main() {
         if let Some(j) = &journal {
             std::fs::write(j, format!("{}", hi)).ok();
         }
+        out.flush().unwrap();
+        cfb_verif_harness::watchdog::begin();
         let mut reset = Map::new();
         reset.insert("ev".into(), json!("reset"));
         reset.insert("hi".into(), json!(hi));
@@ -357,6 +361,7 @@ fn main() {
         }
         live.h = None;
         live.cf = None;
+        cfb_verif_harness::watchdog::end();
     }
     out.flush().unwrap();
 }
